@@ -198,6 +198,10 @@ pub struct Observed {
     pub under_recursive: bool,
     /// rows of the isolated re-execution of the un-instrumented node (None = not run / failed)
     pub isolated_rows: Option<usize>,
+    pub spill_count: usize,
+    pub spilled_rows: usize,
+    /// rows that flowed into the operator: the tap counts of its children
+    pub input_rows: usize,
 }
 
 pub struct Run {
@@ -209,7 +213,7 @@ pub struct Run {
 
 pub fn run_case(case: &WalkCase) -> Result<Run, WalkFail> {
     let sql = case.sql();
-    walk::in_session(&case.variant, |ctx| async move {
+    walk::in_session_limited(&case.variant, case.mem_limit, |ctx| async move {
         walk::register_declared(&ctx, case).map_err(WalkFail::Setup)?;
         let planned = walk::plan_sql(&ctx, &sql).await.map_err(WalkFail::Plan)?;
         let plan_text = walk::plan_text(&planned.physical);
@@ -235,6 +239,13 @@ pub fn run_case(case: &WalkCase) -> Result<Run, WalkFail> {
                     errors: t.counters.errors.load(Ordering::SeqCst),
                     under_recursive: t.under_recursive,
                     isolated_rows: None,
+                    spill_count: ms.as_ref().and_then(|m| m.spill_count()).unwrap_or(0),
+                    spilled_rows: ms.as_ref().and_then(|m| m.spilled_rows()).unwrap_or(0),
+                    input_rows: {
+                        // direct children: paths one segment longer with this path as prefix
+                        let prefix = if t.path.is_empty() { String::new() } else { format!("{}.", t.path) };
+                        taps.iter().filter(|c| c.path.len() > t.path.len() && c.path.starts_with(&prefix) && !c.path[prefix.len()..].contains('.')).map(|c| c.counters.rows.load(Ordering::SeqCst)).sum()
+                    },
                 }
             })
             .collect();
@@ -263,7 +274,18 @@ impl Property for C53 {
         "c53"
     }
     fn strategy(&self, tier: Tier) -> BoxedStrategy<WalkCase> {
-        walk::case_strategy(tier, Purpose::Metrics, 3, 2)
+        // about a third of the cases run under a tiny memory limit (1 B … 64 KiB, greedy or fair pool) so that
+        // RepartitionExec / SortExec / aggregates really spill; plans that then end in ResourcesExhausted are discards
+        let limit = prop_oneof![
+            6 => Just(None),
+            3 => (prop::sample::select(vec![1u64, 256, 1024, 2048, 4096, 8192, 16384, 65536]), any::<bool>()).prop_map(Some),
+        ];
+        (walk::case_strategy(tier, Purpose::Metrics, 3, 2), limit)
+            .prop_map(|(mut c, l)| {
+                c.mem_limit = l;
+                c
+            })
+            .boxed()
     }
     fn budget(&self, tier: Tier) -> Budget {
         Budget::new(tier.pick(480, 30_000), tier.pick(8, 16)).min_nontrivial(tier.pick(100, 6_000)).case_timeout(90)
@@ -310,6 +332,26 @@ fn judge(case: &WalkCase) -> Judged {
     let mut compared = 0;
     let mut wrapper = false;
     let mut findings = vec![];
+    if case.mem_limit.is_some() {
+        labels.push("memory-limited".into());
+    }
+    for o in &run.ops {
+        if o.spill_count > 0 || o.spilled_rows > 0 {
+            labels.push("spilled".into());
+            labels.push(format!("spilled@{}", o.name));
+            // spill metrics: a spill that happened wrote rows; a repartition writes each input row at most once
+            let bad = if o.spill_count > 0 && o.spilled_rows == 0 {
+                Some(format!("reports spill_count = {} but spilled_rows = 0", o.spill_count))
+            } else if o.name == "RepartitionExec" && o.spilled_rows > o.input_rows && o.errors == 0 {
+                Some(format!("reports spilled_rows = {} although only {} rows flowed into it", o.spilled_rows, o.input_rows))
+            } else {
+                None
+            };
+            if let Some(b) = bad {
+                findings.push(Finding { sig: None, msg: format!("operator [{}] {} {b}{}\n  plan:\n{}", o.path, o.display, case.describe(), run.plan_text) });
+            }
+        }
+    }
     for o in &run.ops {
         if o.under_recursive {
             labels.push("exempt:inside-recursive-term".into());
